@@ -91,7 +91,14 @@ def build(cfg, workdir, perm_seed=None, perm_kinds=None):
         assignment = {(a["o"], a["k"]): a for a in cfg["plan"]}
         planning = S.StaticPlanning(reg, assignment)
     else:
-        planning = S.HBatchPlanning(reg)
+        dm = None
+        if cfg.get("realDelay"):
+            # a real topsim DelayModel handed to the planning model (C10 only:
+            # the drawn delays are not part of the specification)
+            from topsim.core.delay import DelayModel
+            rd = cfg["realDelay"]
+            dm = DelayModel(rd["prob"], rd["dist"], DelayModel.DelayDegree[rd["degree"]], rd["seed"])
+        planning = S.HBatchPlanning(reg, dm)
     if alg == "batch":
         split = None
         if cfg.get("split"):
